@@ -291,7 +291,7 @@ def r_aabbargs(idx, rep, rule="R-AABBARGS"):
 def r_margin(idx, rep, rule="R-MARGIN"):
     rep.rule(rule, "Margin.support_function = inner support + margin * norm_vector(direction); first_vertex / center / "
                    "update_pose / collider2origin delegate to the wrapped collider; Margin.aabb subtracts the margin from the "
-                   "lower and adds it to the upper bounds", floor=7)
+                   "lower and adds it to the upper bounds", floor=6)
     ci = idx.cls(COLL + "::Margin")
     sf = ci.methods.get("support_function")
     if sf is None:
@@ -408,6 +408,27 @@ def r_axis(idx, rep, rule="R-AXIS"):
                         comp.add(k)
             if comp:
                 found["geometry.support_function_%s" % shape] = comp
+        if shape == "disk":
+            f = idx.maybe_func("distance3d.geometry::support_function_disk")
+            if f is not None:
+                zeroed, stackpos = set(), set()
+                for n in ast.walk(f.node):
+                    if isinstance(n, ast.Assign) and isinstance(n.targets[0], ast.Subscript) and const(n.value) in (0, 0.0) and isinstance(const(n.targets[0].slice), int):
+                        zeroed.add(const(n.targets[0].slice))
+                    if isinstance(n, ast.Call) and call_name(n) == "np.column_stack" and n.args and isinstance(n.args[0], ast.Tuple):
+                        for k, e in enumerate(n.args[0].elts):
+                            if u(e) == "normal":
+                                stackpos.add(k)
+                if zeroed:
+                    found["geometry.support_function_disk (zeroed component)"] = zeroed
+                if stackpos:
+                    found["geometry.support_function_disk (normal column)"] = stackpos
+            if ci is not None and "collider2origin" in ci.methods:
+                for n in ast.walk(ci.methods["collider2origin"].node):
+                    if isinstance(n, ast.Call) and call_name(n) == "np.column_stack" and n.args and isinstance(n.args[0], ast.Tuple):
+                        for k, e in enumerate(n.args[0].elts):
+                            if u(e) == "self.normal":
+                                found["Disk.collider2origin (normal column)"] = {k}
         allv = set()
         for s in found.values():
             allv |= s
